@@ -180,6 +180,7 @@ type engScenario struct {
 	ref     *CM // reference model (with the limit), re-initialised per query
 	dvCache map[string]string
 	vCache  map[string]bool
+	veCache map[string]string // text of the reference model's validation errors at the set ("" when valid)
 	totals  map[string][6]float64
 }
 
@@ -208,7 +209,11 @@ func (s *engScenario) dvJSON(bits []bool) string {
 	var g interface{}
 	must(json.Unmarshal(raw, &g))
 	out := canonJSON(g)
-	ok, _ := s.ref.m.StateIsValid()
+	ok, verr := s.ref.m.StateIsValid()
+	ve := ""
+	if !ok && verr != nil {
+		ve = verr.Error()
+	}
 	var t [6]float64
 	for i := range varNames {
 		t[i] = s.ref.total(i)
@@ -216,9 +221,28 @@ func (s *engScenario) dvJSON(bits []bool) string {
 	if len(s.dvCache) < 100000 {
 		s.dvCache[k] = out
 		s.vCache[k] = ok
+		s.veCache[k] = ve
 		s.totals[k] = t
 	}
 	return out
+}
+
+// veTextAt is what a freshly initialised reference model at exactly `bits` says is wrong with that set under the
+// scenario's limit (the text the engine's ValidationErrors attribute must carry); "" when the set is valid.
+func (s *engScenario) veTextAt(bits []bool) string {
+	k := bitsTok(bits)
+	if v, ok := s.veCache[k]; ok {
+		return v
+	}
+	s.dvJSON(bits)
+	if v, ok := s.veCache[k]; ok {
+		return v
+	}
+	s.setRef(bits)
+	if ok, verr := s.ref.m.StateIsValid(); !ok && verr != nil {
+		return verr.Error()
+	}
+	return ""
 }
 
 func (s *engScenario) validAt(bits []bool) bool {
@@ -294,6 +318,80 @@ func newEngCatalogue(out string) *engCatalogue {
 }
 
 var genDsRe = regexp.MustCompile(`^ds/gen-(\d+)/`)
+var bigDsRe = regexp.MustCompile(`^ds/big-(\d+)/`)
+
+// genFourDataset: the shipped test data with a fourth action type (a wetland) at planning unit 17, which offers gully,
+// hill-slope and river-bank restoration already: a planning unit with all FOUR action types (the shipped data sets have at
+// most three per unit), so that per-unit action slices of length three with spare capacity exist.
+func genFourDataset(repo, dir string) {
+	must(os.MkdirAll(dir, 0o755))
+	src := filepath.Join(repo, "cmd/cremengine/engine/api/testdata")
+	for _, f := range []string{"ValidModel.csv", "ValidSubcatchments.csv", "ValidGullies.csv", "ValidActions.csv"} {
+		b, err := os.ReadFile(filepath.Join(src, f))
+		must(err)
+		text := string(b)
+		if f == "ValidActions.csv" {
+			if !strings.HasSuffix(text, "\n") {
+				text += "\n"
+			}
+			text += "17,Wetland,1500,250000,0,0,0,0,0,0,0,0,0.9,1,1\n"
+		}
+		if f == "ValidModel.csv" {
+			text = strings.ReplaceAll(text, "Valid", "Four")
+		}
+		must(os.WriteFile(filepath.Join(dir, "Four"+strings.TrimPrefix(f, "Valid")), []byte(text), 0o644))
+	}
+}
+
+// genBigDataset: 20-26 planning units, most of them offering all four action types: more than 64 management actions, so
+// that action-set encodings have two words (`<hex>:<hex>`) in PATCH bodies, the Encoding attribute and front matching.
+func genBigDataset(r *Rng, dir string) {
+	must(os.MkdirAll(dir, 0o755))
+	f := func(v float64) string { return strconv.FormatFloat(v, 'g', -1, 64) }
+	round := func(v float64, d int) float64 {
+		x, _ := strconv.ParseFloat(strconv.FormatFloat(v, 'f', d, 64), 64)
+		return x
+	}
+	nPU := 20 + r.Intn(7)
+	var sub, gul, act strings.Builder
+	sub.WriteString("Subcatchment,DownstreamId,ChannelLength,ChannelSlope,BankfullFlow,ChannelWidth,ChannelDepth,FloodplainWidth,ProportionOfRiparianVegetation,SubcatchmentArea,RiparianBufferArea,HillslopeArea\n")
+	gul.WriteString("Identifier,Subcatchment,Volume,ChannelLengh\n")
+	act.WriteString("Subcatchment,ActionType,OpportunityCost,ImplementationCost,ParticulateNitrogenOriginal,ParticulateNitrogenActioned,HillslopeErosionOriginal,HillslopeErosionActioned,FineSedimentOriginal,FineSedimentActioned,DissolvedNitrogenOriginal,DissolvedNitrogenActioned,DNRemovalEfficiency,PNRemovalEfficiency,SedimentRemovalEfficiency\n")
+	for i := 0; i < nPU; i++ {
+		p := 3 + 7*i
+		veg := []float64{0.05, 0.114667, 0.2, 0.308863, 0.5, 0.6}[r.Intn(6)] // below the riparian target: a river-bank action exists
+		fmt.Fprintf(&sub, "%d,%d,%s,%s,%s,%s,%s,%s,%s,%s,%s,%s\n", p, 1+r.Intn(30),
+			f(round(5000+r.Float()*20000, 0)), f(round(0.00002+r.Float()*0.0002, 7)), f(round(0.02+r.Float()*9, 5)),
+			f(round(1+r.Float()*20, 3)), f(round(0.1+r.Float()*5, 4)), f(round(300+r.Float()*2700, 2)),
+			f(veg), f(round(1e6+r.Float()*5e6, 0)), f(round(5e4+r.Float()*1.5e5, 1)), f([]float64{17435.3, 980041, 21082.9}[r.Intn(3)]))
+		if r.Chance(0.9) {
+			fmt.Fprintf(&gul, "%d,%d,%s,%s\n", i+1, p, f(round(100+r.Float()*50000, 2)), f(round(100+r.Float()*1500, 3)))
+			pn, dn := round(0.1+r.Float()*2, 6), round(r.Float()*0.01, 9)
+			fmt.Fprintf(&act, "%d,Gully,%s,%s,%s,%s,0,0,0,0,%s,%s,0,0,0\n", p, f(round(r.Float()*9000, 0)), f(round(1000+r.Float()*200000, 0)),
+				f(pn), f(round(pn*r.Float(), 6)), f(dn), f(round(dn*r.Float(), 9)))
+		}
+		if r.Chance(0.9) {
+			ero := round(1+r.Float()*500, 3)
+			pn, dn := round(0.1+r.Float()*10, 6), round(r.Float()*5, 6)
+			fmt.Fprintf(&act, "%d,Hillslope,%s,%s,%s,%s,%s,%s,0,0,%s,%s,0,0,0\n", p, f(round(r.Float()*90000, 0)), f(round(1000+r.Float()*4e6, 0)),
+				f(pn), f(round(pn*r.Float(), 6)), f(ero), f(round(ero*r.Float()*0.2, 4)), f(dn), f(round(dn*(0.8+0.2*r.Float()), 6)))
+		}
+		if r.Chance(0.9) {
+			fo, dn := round(0.1+r.Float()*0.1, 6), round(r.Float()*1e-6, 12)
+			fmt.Fprintf(&act, "%d,Riparian,%s,%s,0,0,0,0,%s,%s,%s,%s,%s,0,0\n", p, f(round(r.Float()*7000, 0)), f(round(1000+r.Float()*900000, 0)),
+				f(fo), f(round(0.1+r.Float()*0.15, 6)), f(dn), f(round(dn*r.Float(), 12)), f([]float64{0.632175983, 0.5, 0.9}[r.Intn(3)]))
+		}
+		if r.Chance(0.9) {
+			fmt.Fprintf(&act, "%d,Wetland,%s,%s,0,0,0,0,0,0,0,0,%s,%s,%s\n", p, f(round(r.Float()*20000, 0)), f(round(1000+r.Float()*2.5e6, 0)),
+				f([]float64{0.99, 0.98, 0.5}[r.Intn(3)]), f([]float64{1, 0.9, 0.3}[r.Intn(3)]), f([]float64{1, 0.95, 0.4}[r.Intn(3)]))
+		}
+	}
+	w := func(name, content string) { must(os.WriteFile(filepath.Join(dir, name), []byte(content), 0o644)) }
+	w("bSubcatchments.csv", sub.String())
+	w("bGullies.csv", gul.String())
+	w("bActions.csv", act.String())
+	w("bModel.csv", "TableName, FilePath\nSubcatchments, bSubcatchments.csv\nGullies, bGullies.csv\nActions, bActions.csv\n")
+}
 
 // ensureDataset makes sure the data set named by a relative path exists below the working directory.
 // Known names: ds/valid/ValidModel.csv, ds/testing/TestingModel.csv (copies of the shipped test data),
@@ -321,6 +419,15 @@ func (cat *engCatalogue) ensureDataset(rel string) bool {
 		for _, f := range []string{"TestingModel.csv", "TestingSubcatchments.csv", "TestingGullies.csv", "TestingActions.csv"} {
 			copyFile(filepath.Join(src, f), filepath.Join(dir, f))
 		}
+	case rel == "ds/four/FourModel.csv":
+		genFourDataset(repo, filepath.Join(cat.root, "ds/four"))
+	case bigDsRe.MatchString(rel):
+		m := bigDsRe.FindStringSubmatch(rel)
+		if rel != "ds/big-"+m[1]+"/bModel.csv" {
+			return false
+		}
+		seed, _ := strconv.ParseUint(m[1], 10, 64)
+		genBigDataset(NewRng(seed), filepath.Join(cat.root, "ds", "big-"+m[1]))
 	default:
 		m := genDsRe.FindStringSubmatch(rel)
 		if m == nil {
@@ -368,7 +475,7 @@ func (cat *engCatalogue) scenario(dsRel string, limVar int, limit float64) *engS
 		return nil
 	}
 	s := &engScenario{key: key, dsRel: dsRel, limVar: limVar, limit: limit, ref: cm,
-		dvCache: map[string]string{}, vCache: map[string]bool{}, totals: map[string][6]float64{}}
+		dvCache: map[string]string{}, vCache: map[string]bool{}, veCache: map[string]string{}, totals: map[string][6]float64{}}
 	for _, a := range cm.m.ManagementActions() {
 		s.acts = append(s.acts, engAct{pu: uint64(a.PlanningUnit()), typ: string(a.Type())})
 	}
